@@ -127,7 +127,13 @@ def run(prog: Program, rep, thorough: bool) -> None:
                      f'`{norm(getattr(s.node, "_parent", s.node))[:80]}`')
         elif in_hierarchy and isinstance(s.base, ast.Name) and fn.positional and s.base.id == fn.positional[0]:
             # other stores on self inside the hierarchy
-            if attr == DISPLAY and fn.name in ('__init__', 'convert'):
+            if attr == DISPLAY and fn.name in ('__init__', 'convert', '__lshift__', '__rlshift__', '__ilshift__'):
+                continue            # the conversion family: `q << unit` is the operator form of convert
+            if attr == DISPLAY:
+                # the display unit written by another operation: the magnitude is untouched, which is all the statement
+                # asks; whether that operation should re-label the quantity is not decided here
+                rep.undecided('C13.R1', f'{s.module.path}:{s.node.lineno}', f'{fn.qualname} stores self.{attr}',
+                              'a display-unit store outside the conversion family: harmless to the magnitude, not judged')
                 continue
             rep.fail('C13.R1', s.module.path, s.node.lineno, fn.qualname, f'self.{attr}',
                      f'{fn.qualname} stores self.{attr}: only __init__ and convert may write a quantity, '
